@@ -15,6 +15,7 @@ import (
 	"os"
 	"strings"
 	"sync"
+	"syscall"
 	"time"
 
 	"github.com/lianxiangcloud/linkchain/libs/common"
@@ -33,7 +34,7 @@ type bprog struct {
 	Input string            `json:"input,omitempty"`
 	Gas   uint64            `json:"gas"`
 	Value string            `json:"value"`               // "0" | "1" | ">balance"
-	Cap   bool              `json:"cap"`                 // the wall-clock cap applies (gas <= 10^7)
+	Cap   bool              `json:"cap"`                 // the processor-time cap applies (gas <= 10^7)
 	Self  bool              `json:"selfcheck,omitempty"` // the program stores 1 at slot 0xbad when a failed value call changed its balance
 
 	code  []byte
@@ -508,6 +509,42 @@ func pingPong(other common.Address) []byte {
 
 // ---- the oracles ----------------------------------------------------------------
 
+// The termination oracle: one invocation with a bounded gas budget (<= 10^7) must not
+// use more than cpuCap of processor time. Processor time of this process, not wall
+// clock: the verdict must not depend on how busy the machine is.
+const cpuCap = 10 * time.Second
+
+var guard struct {
+	mu   sync.Mutex
+	on   bool
+	cpu0 time.Duration
+}
+
+func cpuNow() time.Duration {
+	var ru syscall.Rusage
+	if syscall.Getrusage(syscall.RUSAGE_SELF, &ru) != nil {
+		return 0
+	}
+	return time.Duration(ru.Utime.Nano() + ru.Stime.Nano())
+}
+
+func guardOn(on bool) {
+	guard.mu.Lock()
+	guard.on, guard.cpu0 = on, cpuNow()
+	guard.mu.Unlock()
+}
+
+// guardExceeded reports whether the running invocation is over the cap.
+func guardExceeded() (bool, time.Duration) {
+	guard.mu.Lock()
+	defer guard.mu.Unlock()
+	if !guard.on {
+		return false, 0
+	}
+	used := cpuNow() - guard.cpu0
+	return used > cpuCap, used
+}
+
 type bRun struct {
 	o    outcome
 	dg   digest
@@ -520,7 +557,9 @@ func (p *bprog) runOnce(cold bool) (bRun, *state.StateDB, error) {
 		return bRun{}, nil, err
 	}
 	t0 := time.Now()
+	guardOn(p.Cap)
 	o := invoke(st, p.spec())
+	guardOn(false)
 	r := bRun{o: o, wall: time.Since(t0)}
 	if o.panicv == "" {
 		func() {
@@ -622,7 +661,9 @@ func (p *bprog) checkTraced(ref bRun) *mismatch {
 	tr := &stepTracer{max: 300000}
 	cs := p.spec()
 	cs.tracer = tr
+	guardOn(p.Cap)
 	o := invoke(st, cs)
+	guardOn(false)
 	if o.panicv != "" {
 		return &mismatch{"panic", "the EVM panicked (traced run): " + o.panicv}
 	}
@@ -769,8 +810,6 @@ func nthProgram(seed int64, j job, i int, lines []string, dirs []directed) (*bpr
 	return p, nil
 }
 
-const wallCap = 15 * time.Second
-
 // childB runs programs [Skip, N) of the job under the generic oracles.
 func childB(c *core.Ctx, j job) {
 	var lines []string
@@ -786,8 +825,6 @@ func childB(c *core.Ctx, j job) {
 	seen := map[string]bool{}
 	distinct := map[[32]byte]bool{}
 	var mu sync.Mutex
-	var started time.Time
-	var capOn bool
 	flush := func() {
 		rj, _ := json.Marshal(res)
 		fmt.Fprintf(os.Stdout, "RESULT %s\n", rj)
@@ -795,14 +832,13 @@ func childB(c *core.Ctx, j job) {
 	// watchdog: a program with a bounded gas budget that does not finish is a finding, not a hang of the check
 	go func() {
 		for {
-			time.Sleep(200 * time.Millisecond)
-			mu.Lock()
-			if capOn && time.Since(started) > wallCap {
+			time.Sleep(250 * time.Millisecond)
+			if over, used := guardExceeded(); over {
+				mu.Lock()
 				flush()
-				fmt.Fprintf(os.Stderr, "fatal error: wall-clock cap: the program did not finish within %v\n", wallCap)
+				fmt.Fprintf(os.Stderr, "fatal error: cpu-time cap: one invocation with at most %d gas has used %.1fs of processor time and has not finished\n", gasCapLimit, used.Seconds())
 				os.Exit(4)
 			}
-			mu.Unlock()
 		}
 	}()
 	for i := j.Skip; i < j.N; i++ {
@@ -819,12 +855,8 @@ func childB(c *core.Ctx, j job) {
 		}
 		at, _ := json.Marshal(p)
 		fmt.Fprintf(os.Stdout, "AT %s\n", at)
-		mu.Lock()
-		started, capOn = time.Now(), p.Cap
-		mu.Unlock()
 		m, evals, nontrivial, err := p.checkGeneric(i%j.Deep == 0 || strings.HasPrefix(p.Gen, "directed/"))
 		mu.Lock()
-		capOn = false
 		res.Done++
 		res.Evals += evals
 		res.Behaviours++
@@ -884,5 +916,5 @@ func partB(c *core.Ctx, base string, pl *pool) {
 		pl.submit(job{Part: "B", File: file, Idx: w, N: total / workers, Deep: 4, Insts: workers}, c.MinutesT(5, 25))
 	}
 	c.SetExtra("partB_directed_programs", len(allDirected()))
-	c.SetExtra("partB_wall_clock_cap_s", wallCap.Seconds())
+	c.SetExtra("partB_cpu_time_cap_per_invocation_s", cpuCap.Seconds())
 }
